@@ -33,11 +33,18 @@ func (m msg) String() string { return fmt.Sprintf("c%d:%s(%d)", m.Conn, m.Kind, 
 
 var startKinds = []string{"start", "start", "start", "start", "start-keylen-0", "start-keylen-1", "start-keylen-31", "start-keylen-33", "start-no-key", "start-method-unknown"}
 var finishKinds = []string{"finish-genuine", "finish-genuine", "finish-genuine", "finish-wrong-key", "finish-stale", "finish-reordered-material", "finish-replayed", "finish-unknown-name",
-	"finish-accessory-name", "finish-seal-zero-key", "finish-seal-random-key", "finish-seal-wrong-nonce", "finish-short", "finish-absent", "finish-garbage-tlv", "finish-empty-signature"}
-var otherKinds = []string{"unknown-step", "empty-body", "garbage"}
+	"finish-accessory-name", "finish-genuine-late", "finish-genuine-late", "finish-seal-zero-key", "finish-seal-random-key", "finish-seal-wrong-nonce", "finish-short", "finish-absent", "finish-garbage-tlv", "finish-empty-signature"}
+var otherKinds = []string{"unknown-step", "empty-body", "garbage", "replay-whole-exchange", "replay-whole-exchange"}
 
 type exchange struct {
-	v *refctl.VerifyState
+	v  *refctl.VerifyState
+	m1 []byte
+}
+
+// a complete genuine exchange as seen on the network (both messages travel in plaintext)
+type recordedExchange struct {
+	conn   int
+	m1, m3 []byte
 }
 
 type connState struct {
@@ -60,6 +67,7 @@ type world struct {
 	recorded [][]byte // genuine finish messages seen so far
 	seed     []byte
 	starts   int
+	whole    []recordedExchange
 }
 
 func (w *world) pickStored(arg int) *refctl.Controller {
@@ -101,7 +109,8 @@ func (w *world) send(m msg) (label string, err error) {
 		if m.Kind != "start-no-key" {
 			items = append(items, refctl.Item{Tag: refctl.TagPublicKey, Value: key})
 		}
-		resp, derr := cs.c.Do("POST", "/pair-verify", refctl.ContentTLV8, refctl.EncodeTLV8(items))
+		m1body := refctl.EncodeTLV8(items)
+		resp, derr := cs.c.Do("POST", "/pair-verify", refctl.ContentTLV8, m1body)
 		if derr != nil {
 			if _, ok := derr.(*fixture.PanicError); ok {
 				stats.Count("handler_panics_seen", 1)
@@ -120,7 +129,7 @@ func (w *world) send(m msg) (label string, err error) {
 				if m2.AccID != w.accID || !ed25519.Verify(ed25519.PublicKey(w.accLTPK), info, m2.Signature) {
 					return label, fmt.Errorf("M2 of pair-verify is not signed by the accessory's long-term key (id %q)", m2.AccID)
 				}
-				cs.prev, cs.cur = cs.cur, &exchange{v}
+				cs.prev, cs.cur = cs.cur, &exchange{v, m1body}
 				cs.uncertain = false
 				label = "start:accepted"
 			}
@@ -146,6 +155,19 @@ func (w *world) send(m msg) (label string, err error) {
 		case "finish-genuine":
 			plain = sign(ctl, ctl.ID, st.EphPublic, st.AccEph)
 			genuine = haveExchange && len(w.stored) > 0
+		case "finish-genuine-late":
+			// out of order: a correct finish for an exchange that an earlier finish (failed or not) already ended
+			if cs.cur == nil && cs.prev != nil {
+				st = cs.prev.v
+				sealKey = st.Key
+				label = "finish-genuine-late(after-ended-exchange)"
+			}
+			plain = sign(ctl, ctl.ID, st.EphPublic, st.AccEph)
+			if haveExchange {
+				// with an open exchange this is simply the genuine finish
+				genuine = len(w.stored) > 0
+				label = "finish-genuine"
+			}
 		case "finish-wrong-key":
 			plain = sign(w.attacker, ctl.ID, st.EphPublic, st.AccEph)
 		case "finish-stale":
@@ -193,10 +215,35 @@ func (w *world) send(m msg) (label string, err error) {
 		}
 		if genuine {
 			w.recorded = append(w.recorded, body)
+			w.whole = append(w.whole, recordedExchange{m.Conn, cs.cur.m1, body})
 		}
-		if !haveExchange {
+		if !haveExchange && !strings.Contains(label, "(") {
 			label += "(no-exchange)"
 		}
+	case m.Kind == "replay-whole-exchange":
+		// an eavesdropper replays both plaintext messages of a genuine exchange, verbatim, on ANOTHER connection
+		var rec *recordedExchange
+		for i := range w.whole {
+			if w.whole[i].conn != m.Conn {
+				rec = &w.whole[(i+m.Arg)%len(w.whole)]
+				if rec.conn == m.Conn {
+					rec = &w.whole[i]
+				}
+				break
+			}
+		}
+		if rec == nil {
+			label = "replay-whole-exchange(nothing-recorded)"
+			body = []byte{}
+			break
+		}
+		if r1, e1 := cs.c.Do("POST", "/pair-verify", refctl.ContentTLV8, rec.m1); e1 != nil || r1 == nil {
+			label = "replay-whole-exchange(start-refused)"
+		}
+		cs.prev, cs.cur = cs.cur, nil
+		body = rec.m3
+		m.Kind = "finish-replayed-exchange"
+		label = "replay-whole-exchange"
 	case m.Kind == "unknown-step":
 		body = refctl.EncodeTLV8([]refctl.Item{{Tag: refctl.TagState, Value: []byte{byte([]int{0, 2, 4, 5, 9, 255}[m.Arg%6])}}})
 	case m.Kind == "empty-body":
@@ -357,6 +404,8 @@ func TestC03Prop(t *testing.T) {
 				opened[ms[i].Conn] = false
 			} else if strings.HasPrefix(l, "start-") {
 				cls = append(cls, l)
+			} else if strings.HasPrefix(l, "replay-whole-exchange") {
+				cls = append(cls, fmt.Sprintf("%s/stored=%d", l, nstored))
 			}
 		}
 		if len(cls) == 0 {
@@ -397,6 +446,7 @@ func TestC03Regress(t *testing.T) {
 		{"rejected start (31-byte key) then finish sealed with the zero key naming a stored controller", 1, []msg{{0, "start-keylen-31", 0}, {0, "finish-seal-zero-key", 0}}},
 		{"stale signature", 1, []msg{{0, "start", 1}, {0, "finish-unknown-name", 0}, {0, "start", 2}, {0, "finish-stale", 0}}},
 		{"replay of a genuine finish on another connection", 1, []msg{{0, "start", 0}, {0, "finish-genuine", 0}, {1, "start", 5}, {1, "finish-replayed", 0}}},
+		{"short finish, then the correct finish for the same start (out of order)", 1, []msg{{0, "start", 0}, {0, "finish-short", 3}, {0, "finish-genuine-late", 0}}},
 		{"replay after a rejected start", 1, []msg{{0, "start", 0}, {0, "finish-genuine", 0}, {0, "start-keylen-0", 0}, {0, "finish-replayed", 0}}},
 		{"empty signature", 2, []msg{{0, "start", 0}, {0, "finish-empty-signature", 1}}},
 	}
